@@ -67,11 +67,12 @@ Proof. exact legacy_iam_example. Qed.
 Print Assumptions C03_legacy_iam_example.
 
 (* omitted, empty dict and empty message give the same request; a dict gives the message with those fields; a message
-   instance is sent unchanged (one corner spelled out: a cross-package proto-plus request with no set field is replaced
-   by a new empty message) *)
-Theorem C03_coerce_equiv : forall v m cross pp inf,
-  NoDup (map fst m) -> fm_wf m -> (v = Async -> cross = true -> ctor_ok m inf) ->
-  let b := emit v m cross pp inf in
+   instance is sent unchanged (one corner spelled out: a cross-package proto-plus request whose set fields all hold false
+   values is replaced by a new empty message).  The hypothesis about maps holds of every cross-package mapping
+   (C05_cross_mapping_no_maps). *)
+Theorem C03_coerce_equiv : forall v m cross pp,
+  NoDup (map fst m) -> fm_wf m -> (v = Async -> cross = true -> no_maps m) ->
+  let b := emit v m cross pp in
   exec b RNone [] = OSend empty_req /\
   exec b (RDict empty_req) [] = OSend empty_req /\
   exec b (RMsg empty_req) [] = OSend empty_req /\
@@ -79,16 +80,6 @@ Theorem C03_coerce_equiv : forall v m cross pp inf,
   (forall r, exec b (RMsg r) [] = OSend (if cross && msg_falsy pp r then empty_req else r)).
 Proof. exact coerce_equiv. Qed.
 Print Assumptions C03_coerce_equiv.
-
-(* without the constructor hypothesis: asyncio, cross-package, dotted flattened path: omitting the request raises *)
-Theorem C03_coerce_equiv_refuted :
-  exists m, fields_mapping ex_csch (mkMsg false [scalar "name"; msgf "sub" ".c.Sub"]) true ["name,sub.text"] = Some m /\
-    let inf := ["name"; "sub"] in
-    exec (emit Sync m true false inf) RNone [] = OSend empty_req /\
-    exec (emit Async m true false inf) RNone [] = ORaiseCtor /\
-    exec (emit Async m true false inf) (RDict empty_req) [] = OSend empty_req.
-Proof. exact async_cross_dotted_refuted. Qed.
-Print Assumptions C03_coerce_equiv_refuted.
 
 Theorem C03_void_returns_none : forall m,
   me_void m = true ->
@@ -123,13 +114,17 @@ Theorem C03_example_service :
 Proof. exact ex_svc_ok. Qed.
 Print Assumptions C03_example_service.
 
-(* the hypotheses of C03_coerce_equiv hold of a cross-package mapping (asyncio constructor included) *)
+(* the hypotheses of C03_coerce_equiv hold of a cross-package mapping with a dotted path (the former witness of the
+   asyncio constructor defect, repaired in /repo by 14fc9e4): omitting the request now sends the empty request *)
 Theorem C03_example_coercion :
-  let m := cm ["name, tags"; "sub"] in
-  fields_mapping ex_csch ex_common true ["name, tags"; "sub"] = Some m /\
-  map fst m = ["name"; "tags"] /\ NoDup (map fst m) /\ fm_wf m /\ ctor_ok m (ctor_fields ex_common) /\
-  block_ok (emit Sync m true false (ctor_fields ex_common)) = true /\
-  exec (emit Sync m true false (ctor_fields ex_common)) RNone [("tags", LL ["=sa"])] = OSend (mkReq [("tags", LL ["=sa"])] []) /\
-  exec (emit Async m true false (ctor_fields ex_common)) RNone [("tags", LL ["=sa"])] = OSend (mkReq [("tags", LL ["=sa"])] []).
+  let m := cm ex_csigs in
+  fields_mapping ex_csch ex_common true ex_csigs = Some m /\
+  map fst m = ["name"; "tags"; "sub.text"; "nums"; "type"] /\ names m = ["name"; "tags"; "text"; "nums"; "type"] /\
+  NoDup (map fst m) /\ fm_wf m /\ no_maps m /\
+  block_ok (emit Sync m true false) = true /\ block_ok (emit Async m true false) = true /\
+  exec (emit Sync m true false) RNone ex_ckw = OSend (mkReq [("tags", LL ["=sa"]); ("sub.text", LS "sx")] ["sub"]) /\
+  exec (emit Async m true false) RNone ex_ckw = OSend (mkReq [("tags", LL ["=sa"]); ("sub.text", LS "sx")] ["sub"]) /\
+  exec (emit Async m true false) RNone [] = OSend empty_req /\
+  exec (emit Async m true false) (RDict empty_req) [("text", LS "")] = ORaiseValue.
 Proof. exact ex_cross_hypotheses. Qed.
 Print Assumptions C03_example_coercion.
